@@ -576,8 +576,12 @@ func (g *generator) shouldCreateSubMethod(ctx *builder.MethodContext, source, ta
 		// *Source -> Target
 		//  Source -> *Target
 		// *Source -> *Target
-		isCurrentPointerStructMethod = ctx.Signature.Source == source.AsPointerType().String() ||
-			ctx.Signature.Target == target.AsPointerType().String()
+		// (a defined pointer type, type P *Source, counts as well)
+		current := g.lookup.ByID(ctx.IndexID)
+		isPointerTo := func(pointer, pointee *xtype.Type) bool {
+			return pointer.Pointer && pointer.PointerInner.String == pointee.String
+		}
+		isCurrentPointerStructMethod = isPointerTo(current.Source, source) || isPointerTo(current.Target, target)
 	}
 
 	createSubMethod := false
